@@ -55,7 +55,7 @@ def generate(seed, run, tier):
         from sim import sched
         cfg = sched.gen_cfg(Stream(seed, ID, run, 'cfg'), Stream(seed, ID, run, 'arch'), methods=(kind,), weights=(1,))
         cfg['cost'] = 'dict:params_bit+ops_bit' if kind == 'mps' else 'dict:params+ops'
-        for k in ('disable_sampling', 'full_cost', 'exclude_names'):
+        for k in ('disable_sampling', 'full_cost', 'exclude_names', 'exclude_types'):
             cfg['ctor'].pop(k, None)   # (MPS full_cost on a fixed conv layer has no bit-width to charge: KeyError)
         case['cfg'] = cfg
     # cost placement relative to target: 'above' | 'at' | 'below'
